@@ -88,24 +88,6 @@ Proof.
     + exact (IH E2 Hi).
 Qed.
 
-(* add_from_value_map without duplicates just appends *)
-Lemma add_map_nodup kvs : forall n, dup_names kvs = false ->
-  (forall kv, In kv kvs -> has_key n (norm (fst kv)) = false) ->
-  fold_left (fun acc kv => fst (n_insert acc (norm (fst kv)) (snd kv))) kvs n = n ++ nmap kvs.
-Proof.
-  induction kvs as [|[k v] r IH]; intros n Hd Hf; cbn [fold_left nmap map fst snd]; [rewrite app_nil_r; reflexivity|].
-  cbn [dup_names] in Hd. apply orb_false_iff in Hd. destruct Hd as [Hd1 Hd2].
-  rewrite (n_insert_fresh n (norm k) v (Hf (k, v) (or_introl eq_refl))). cbn [fst].
-  rewrite IH; [unfold nmap; rewrite <- app_assoc; reflexivity | exact Hd2 |].
-  intros [k' v'] Hi. rewrite has_key_app. rewrite (Hf _ (or_intror Hi)). cbn [has_key existsb fst orb].
-  rewrite orb_false_r.
-  (* k' in r, and k is not a name of r *)
-  clear - Hd1 Hi. induction r as [|[k2 v2] r IH]; [destruct Hi|].
-  cbn in Hd1. apply orb_false_iff in Hd1. destruct Hd1 as [E1 E2]. destruct Hi as [Hi|Hi].
-  - inversion Hi; subst. unfold same_name in E1. rewrite String.eqb_sym. exact E1.
-  - exact (IH E2 Hi).
-Qed.
-
 (* Step A: CallArgs::new + CallArgs::evaluate *)
 Lemma explicit_named_app l m : forall acc,
   explicit_named (l ++ m) acc = match explicit_named l acc with None => None | Some a => explicit_named m a end.
@@ -114,37 +96,35 @@ Proof.
   destruct (n_insert acc (norm k) v) as [a o]. destruct o; [reflexivity | apply IH].
 Qed.
 
-(* the two checked stages (explicit keywords, keywords of a splatted argument list) are one pass *)
+(* the three checked stages (explicit keywords, keywords of a splatted argument list, entries of a
+   map splat - since fix 5cd805f) are one insert-or-duplicate pass over all named arguments *)
 Lemma call_evaluate_alt c :
   call_evaluate c =
-  match explicit_named (checked_named c) [] with
+  match explicit_named (all_named c) [] with
   | None => None
-  | Some n => Some (all_positional c, add_map n (c_msplat c))
+  | Some n => Some (all_positional c, n)
   end.
 Proof.
-  unfold call_evaluate, checked_named, all_positional, add_arglist, arglist_pos, splat_items.
-  rewrite explicit_named_app. destruct (explicit_named (c_named c) []) as [n|]; [|reflexivity].
+  unfold call_evaluate, all_named, checked_named, all_positional, add_arglist, add_map, arglist_pos, splat_items.
+  rewrite !explicit_named_app. destruct (explicit_named (c_named c) []) as [n|]; [|reflexivity].
   destruct (c_asplat c) as [[p kw]|].
-  - destruct (explicit_named kw n); [|reflexivity]. destruct (c_lsplat c) as [[]|]; reflexivity.
-  - cbn [explicit_named]. destruct (c_lsplat c) as [[]|]; reflexivity.
+  - destruct (explicit_named kw n) as [n'|]; [|reflexivity].
+    destruct (c_msplat c) as [kvs|]; [destruct (explicit_named kvs n') | cbn [explicit_named]];
+      destruct (c_lsplat c) as [[]|]; reflexivity.
+  - cbn [explicit_named].
+    destruct (c_msplat c) as [kvs|]; [destruct (explicit_named kvs n) | cbn [explicit_named]];
+      destruct (c_lsplat c) as [[]|]; reflexivity.
 Qed.
 
-Lemma call_evaluate_dup c : dup_names (checked_named c) = true -> call_evaluate c = None.
+Lemma has_key_nil_all (l : list (string * value)) : existsb (fun kv => has_key [] (norm (fst kv))) l = false.
+Proof. induction l as [|x l IHl]; [reflexivity | cbn; exact IHl]. Qed.
+
+Lemma call_evaluate_dup c : dup_names (all_named c) = true -> call_evaluate c = None.
 Proof. intros H. rewrite call_evaluate_alt, explicit_named_spec, H. reflexivity. Qed.
 
 Lemma call_evaluate_nodup c : dup_names (all_named c) = false ->
   call_evaluate c = Some (all_positional c, nmap (all_named c)).
-Proof.
-  intros H. rewrite call_evaluate_alt, explicit_named_spec. unfold all_named in *.
-  destruct (dup_names_app _ _ H) as (A & B & C). rewrite A.
-  assert (E : forall l : list (string * value), existsb (fun kv => has_key [] (norm (fst kv))) l = false)
-    by (intros l; induction l as [|x l IHl]; [reflexivity | cbn; exact IHl]).
-  specialize (E (checked_named c)).
-  rewrite E. cbn [orb app]. f_equal. f_equal.
-  unfold add_map, nmap. destruct (c_msplat c) as [kvs|]; [|rewrite app_nil_r; reflexivity].
-  rewrite map_app. apply add_map_nodup; [exact B|].
-  intros kv Hi. fold (nmap (checked_named c)). rewrite <- has_name_nmap. apply C. exact Hi.
-Qed.
+Proof. intros H. rewrite call_evaluate_alt, explicit_named_spec, H, has_key_nil_all. reflexivity. Qed.
 
 (* ------------------------------------------------------------------ Step B: FormalArgs::eval *)
 Definition names (ps : list (string * option dexpr)) : list string := map (fun p => norm (fst p)) ps.
@@ -429,55 +409,65 @@ Proof.
 Qed.
 
 (* ------------------------------------------------------------------ the main theorem *)
-Theorem bind_main s c :
-  sig_wf s -> known_K1 s c = false -> known_K2 c = false -> known_K3 s c = false ->
-  model_bind s c = spec_bind s c.
+Lemma firstn_min_length {A B} (l : list A) (P : list B) :
+  firstn (length (firstn (length l) P)) l = firstn (length P) l.
 Proof.
-  intros Hwf K1 K2 K3. unfold known_K3 in K3. unfold model_bind in *. unfold spec_bind.
-  destruct (dup_names (checked_named c)) eqn:DE.
-  { rewrite (call_evaluate_dup c DE). unfold all_named. rewrite (dup_names_prefix _ _ DE). reflexivity. }
-  unfold known_K2 in K2. rewrite DE in K2. cbn [negb andb] in K2.
-  rewrite (call_evaluate_nodup c K2) in *. rewrite K2.
+  rewrite firstn_length. destruct (Nat.le_gt_cases (length l) (length P)) as [H|H].
+  - rewrite Nat.min_l by exact H. rewrite firstn_all. symmetry. apply firstn_all2. exact H.
+  - rewrite Nat.min_r by lia. reflexivity.
+Qed.
+
+Lemma n_get_has m k : match n_get m k with Some _ => true | None => false end = has_key m k.
+Proof. induction m as [|[k' v] r IH]; [reflexivity|]. cbn. destruct (String.eqb k k'); [reflexivity | exact IH]. Qed.
+
+Lemma existsb_ext_in' N (l : list (string * option dexpr)) :
+  existsb (fun p => match n_get (nmap N) (norm (fst p)) with Some _ => true | None => false end) l
+  = existsb (fun p => has_name N (fst p)) l.
+Proof.
+  induction l as [|p r IH]; [reflexivity|]. cbn [existsb]. rewrite IH, n_get_has, has_name_nmap. reflexivity.
+Qed.
+
+Theorem bind_main s c :
+  sig_wf s -> known_K3 s c = false -> model_bind s c = spec_bind s c.
+Proof.
+  intros Hwf K3. unfold known_K3 in K3. unfold model_bind in *. unfold spec_bind.
+  destruct (dup_names (all_named c)) eqn:K2.
+  { rewrite (call_evaluate_dup c K2). reflexivity. }
+  rewrite (call_evaluate_nodup c K2) in *.
   set (P := all_positional c) in *. set (N := all_named c) in *.
   unfold formal_eval in *. rewrite nmap_length in *.
   destruct ((match s_rest s with None => true | Some _ => false end) && (length (s_params s) <? length P + length N)%nat);
     [reflexivity|].
-  pose proof (zipbind_model (s_params s) P [] (nmap N)) as ZM. cbn [app] in ZM. rewrite ZM in *. clear ZM.
+  rewrite firstn_min_length in *.
+  assert (EQB : existsb (fun p => match n_get (nmap N) (norm (fst p)) with Some _ => true | None => false end)
+                  (firstn (length P) (s_params s))
+                = existsb (fun p => has_name N (fst p)) (firstn (length P) (s_params s))).
+  { apply existsb_ext_in'. }
+  rewrite EQB in *. clear EQB.
+  destruct (existsb (fun p => has_name N (fst p)) (firstn (length P) (s_params s))) eqn:EB; [reflexivity|].
+  pose proof (zipbind_model (s_params s) P [] (nmap N)) as ZM. cbn [app] in ZM.
+  rewrite firstn_length in ZM. rewrite firstn_length in *. rewrite ZM in *. clear ZM.
   rewrite (zip_phase N (s_params s) P [] Hwf) in * by (intros kv []).
   rewrite zipspec_spec. cbn [skipn].
-  destruct (existsb (fun p => has_name N (fst p)) (firstn (length P) (s_params s))) eqn:EB.
-  - (* passed both by position and by name *)
-    destruct (s_rest s) as [r|] eqn:ER.
-    + unfold known_K1 in K1. rewrite ER in K1. fold P N in K1. congruence.
-    + destruct (zipspec (s_params s) P N []) as [b'|]; cbn [option_map]; [|reflexivity].
-      pose proof (both_survives N (s_params s) (length P) Hwf K2 EB) as NE.
-      destruct (remove_keys (names (skipn (length P) (s_params s))) (nmap N)); [congruence | reflexivity].
-  - rewrite (leftover N (s_params s) (length P) K2 EB) in *.
-    destruct (zipspec (s_params s) P N []) as [b'|]; cbn [option_map] in *; [|reflexivity].
-    set (L := nmap (filter (fun kv => negb (is_param (s_params s) (fst kv))) N)) in *.
-    destruct (s_rest s) as [r|]; [|reflexivity].
-    destruct (skipn (length (s_params s)) P) as [|x xs]; [|reflexivity].
-    change (map (fun kv : string * value => (norm (fst kv), snd kv))
-              (filter (fun kv : string * value => negb (is_param (s_params s) (fst kv))) N)) with L.
-    clearbody L. destruct L as [|[k v] [|y ys]]; try reflexivity.
-    destruct (String.eqb k (norm r)); [discriminate | reflexivity].
+  rewrite (leftover N (s_params s) (length P) K2 EB) in *.
+  destruct (zipspec (s_params s) P N []) as [b'|]; cbn [option_map] in *; [|reflexivity].
+  set (L := nmap (filter (fun kv => negb (is_param (s_params s) (fst kv))) N)) in *.
+  destruct (s_rest s) as [r|]; [|reflexivity].
+  destruct (skipn (length (s_params s)) P) as [|x xs]; [|reflexivity].
+  change (map (fun kv : string * value => (norm (fst kv), snd kv))
+            (filter (fun kv : string * value => negb (is_param (s_params s) (fst kv))) N)) with L.
+  clearbody L. destruct L as [|[k v] [|y ys]]; try reflexivity.
+  destruct (String.eqb k (norm r)); [discriminate | reflexivity].
 Qed.
 
 (* ------------------------------------------------------------------ refuted witnesses, errors, first @return *)
 Definition sig1 (rest : option string) : sigT := mkSig [("a", None)] rest.
-Lemma refuted_both : let c := mkCall [VInt 1] [("a", VInt 2)] None None None in
-  known_K1 (sig1 (Some "r")) c = true /\ model_bind (sig1 (Some "r")) c <> spec_bind (sig1 (Some "r")) c.
-Proof. split; [reflexivity | vm_compute; discriminate]. Qed.
-Lemma refuted_splat_dup : let s := mkSig [("a", None); ("b", Some (DLit (VInt 0)))] None in
-  let c := mkCall [] [("a", VInt 1)] None (Some [("a", VInt 5)]) None in
-  known_K2 c = true /\ model_bind s c <> spec_bind s c.
-Proof. split; [reflexivity | vm_compute; discriminate]. Qed.
 Lemma refuted_only_named : let c := mkCall [VInt 1] [("r", VInt 2)] None None None in
   known_K3 (sig1 (Some "r")) c = true /\ model_bind (sig1 (Some "r")) c <> spec_bind (sig1 (Some "r")) c.
 Proof. split; [reflexivity | vm_compute; discriminate]. Qed.
 
 (* errors *)
-Lemma resplat_duplicate s c : dup_names (checked_named c) = true -> model_bind s c = BErr.
+Lemma resplat_duplicate s c : dup_names (all_named c) = true -> model_bind s c = BErr.
 Proof. intros H. unfold model_bind. rewrite (call_evaluate_dup c H). reflexivity. Qed.
 
 Lemma too_many s pos nm : s_rest s = None -> (length (s_params s) < length pos + length nm)%nat ->
@@ -505,18 +495,17 @@ Qed.
 Lemma no_rest_no_K3 s c : s_rest s = None -> known_K3 s c = false.
 Proof.
   intros Hr. unfold known_K3, model_bind. destruct (call_evaluate c) as [[pos nm]|]; [|reflexivity].
-  unfold formal_eval. rewrite Hr. destruct (_ && _); [reflexivity|].
+  unfold formal_eval. rewrite Hr. destruct (_ && _); [reflexivity|]. destruct (existsb _ _); [reflexivity|].
   destruct (bind_rest_params _ _ _) as [[b' nm']|]; [|reflexivity]. destruct nm'; reflexivity.
 Qed.
 
 Lemma unknown_named s c :
-  sig_wf s -> s_rest s = None -> known_K2 c = false ->
+  sig_wf s -> s_rest s = None ->
   (exists kv, In kv (all_named c) /\ is_param (s_params s) (fst kv) = false) ->
   model_bind s c = BErr.
 Proof.
-  intros Hwf Hr K2 [kv [Hi Hp]].
-  assert (K1 : known_K1 s c = false) by (unfold known_K1; rewrite Hr; reflexivity).
-  rewrite (bind_main s c Hwf K1 K2 (no_rest_no_K3 s c Hr)).
+  intros Hwf Hr [kv [Hi Hp]].
+  rewrite (bind_main s c Hwf (no_rest_no_K3 s c Hr)).
   unfold spec_bind. rewrite Hr. destruct (dup_names (all_named c)); [reflexivity|].
   destruct (_ && _); [reflexivity|]. destruct (existsb _ _); [reflexivity|].
   destruct (spec_params _ _ _ _ _); [|reflexivity].
